@@ -185,6 +185,8 @@ type Sim struct {
 	downUntil  map[string]time.Time
 	Violations []string
 	hung       []*simnet.Dial
+	// ByteWise makes partial deliveries tiny (1-3 bytes) for small pending amounts.
+	ByteWise bool
 	down       bool
 	lockers    []*Locker
 	// Identify names the calling goroutine for lock-wait identities (set by the harness).
@@ -603,6 +605,12 @@ func (s *Sim) doS2C(l *Link) {
 	m := n
 	if n > 1 && s.Cfg.CutProb > 0 && s.R.Float64() < s.Cfg.CutProb {
 		m = 1 + s.R.IntN(n-1)
+		if s.ByteWise && n < 4096 {
+			m = 1 + s.R.IntN(3)
+			if m > n {
+				m = n
+			}
+		}
 		l.S2CCuts++
 		s.Stats["s2c.partial"]++
 	}
